@@ -26,7 +26,7 @@ RULE = (
     "call; every solve() table must equal the first cell for cell; every object passed in "
     "must deep-equal its copy. Stream 'batt_faults' (fault enumeration): for a terminating "
     "battery model with n callback calls, batt_life is run with an exception injected at "
-    "call k for EVERY k = 0..n-1 (three exception types), and with the battery state making "
+    "call k for EVERY k = 0..n-1 (five exception types, two of them BaseException-only), and with the battery state making "
     "the solver fail at step k; afterwards - returned or raised - params() must show the "
     "battery's original vo and rs and the snapshot must be unchanged. Non-trivial: "
     "interleave: >= 4 distinct analyses incl. a diagram and batt_life; batt_faults: every k "
@@ -196,7 +196,12 @@ def body_interleave(case, stats):
                       sample={"calls": calls, **S.summarize(spec)})
 
 
-EXC = {"Injected": Injected, "KeyError": KeyError, "ZeroDivisionError": ZeroDivisionError}
+class Cancelled(BaseException):
+    """not an Exception subclass (like KeyboardInterrupt or asyncio.CancelledError)"""
+
+
+EXC = {"Injected": Injected, "KeyError": KeyError, "ZeroDivisionError": ZeroDivisionError,
+       "KeyboardInterrupt": KeyboardInterrupt, "Cancelled": Cancelled}
 
 
 def body_batt(case, stats):
